@@ -19,11 +19,13 @@ def callsAfter (calls : List String) (x : String) : List String := (calls.dropWh
     * a lookup in the memory maps (`s.getValueFromMem`)                         → `recheckMem`
     * … and a test whether a flush completed (`s.flushedSince`)                → `recheckFull`
     * … and a lookup in the bucket of the current snapshot (`bucket.GetValue`) → `recheckLocked`
+    * … but the bucket comes from the LRU cache (`bucketCache.Get`)             → `recheckLockedCached`
     * neither                                                                   → `noRecheck` -/
 def kvVariantOf (createValueCalls : List String) : KvVariant :=
   let locked := callsBefore (callsAfter createValueCalls "lock.Lock") "createFn"
   if createValueCalls.contains "lock.Lock" ∧ createValueCalls.contains "createFn" ∧ locked.contains "s.getValueFromMem" then
     if locked.contains "s.flushedSince" then .recheckFull
+    else if locked.contains "bucketCache.Get" then .recheckLockedCached
     else if locked.contains "reader.GetBucket" ∧ locked.contains "bucket.GetValue" then .recheckLocked
     else .recheckMem
   else .noRecheck
@@ -63,6 +65,8 @@ def currentCfg : Cfg :=
     schemaMarkWritten := C09.schemaFlushCalls.contains "λ:value.MarkPersistedPrefix" &&
       !C09.schemaFlushCalls.contains "λ:value.MarkPersisted"
     kvMemFirst := kvMemFirstOf C09.kvGetOrCreateCalls
+    kvCacheAddGuarded := C09.kvGetOrCreateCalls.contains "s.addBucketCache" && !C09.kvGetOrCreateCalls.contains "bucketCache.Add" &&
+      C09.kvAddBucketCacheCalls = ["lock.RLock", "defer:lock.RUnlock", "bucketCache.Add"]
     schemaLockedUsesCache := C09.schemaGetSchemaLockedCalls.contains "cache.Get"
     prepareSwapsEmpty := [C09.kvPrepareFlushCalls, C09.schemaPrepareFlushCalls, C09.invertedPrepareFlushCalls,
       C09.forwardPrepareFlushCalls].all (·.contains "immutable.IsEmpty") }
